@@ -80,7 +80,7 @@ class Prop(PropBase):
                         align=rng.choice(["bottom", "center", "top"]), pol=rng.choice(["linear", "circular"]))
             if rng.random() < 0.5:
                 k = rng.choice(["rate", "start", "meta", "cf", "bw", "align", "pol"])
-                args[k] = {"rate": rng.choice(QK), "cf": rng.choice(QK), "bw": rng.choice(QK),
+                args[k] = {"rate": rng.choice(QK + ["zero"]), "cf": rng.choice(QK), "bw": rng.choice(QK + ["zero", "zero"]),
                            "start": rng.choice(["arrayTime", "garbage", "number"]), "meta": "notMapping",
                            "align": rng.choice(["middle", "", "Center", "TOP"]),
                            "pol": rng.choice(["", "elliptical", "Linear"])}[k]
